@@ -271,6 +271,65 @@ def case_cuts(p):
     return out
 
 
+def case_abandoned(p):
+    """One of the waiting requests has been given up (its caller was cancelled / timed out) but its answer still arrives, in front of more
+    traffic.  The answer to the abandoned request goes nowhere; everything after it is delivered as if nothing had happened: the following
+    responses to the waiters behind it, the events to the owner - under every single cut of the stream."""
+    seq = p["seq"]
+    gone = set(p["abandoned"])  # indices among the HTTP responses of the stream
+    stream, sent = _wire(seq)
+    want, k = [], 0
+    for m in sent:
+        if m[0] == "HTTP":
+            if k not in gone:
+                want.append((k,) + tuple(m))
+            k += 1
+        else:
+            want.append((None,) + tuple(m))
+    loop = vloop.VirtualLoop().install()
+    out, trans = [], 0
+    try:
+        n = len(stream)
+        for cs in [()] + [(c,) for c in range(1, n)]:
+            from aiohomekit.controller.ip.connection import InsecureHomeKitProtocol
+
+            log = []
+
+            class Owner(_StubConn):
+                def event_received(self_, resp):
+                    log.append((None, "EVENT", resp.code, tuple(resp.headers), bytes(resp.body)))
+
+            class Fut:
+                def __init__(self_, i):
+                    self_.i, self_._done = i, i in gone
+
+                def done(self_):
+                    return self_._done
+
+                def set_result(self_, resp):
+                    self_._done = True
+                    log.append((self_.i, "HTTP", resp.code, tuple(resp.headers), bytes(resp.body)))
+
+            pr = InsecureHomeKitProtocol(Owner(log))
+            pr.result_cbs = type(pr.result_cbs)(Fut(i) for i in range(k))
+            pos = 0
+            try:
+                for c in cs + (n,):
+                    pr.data_received(stream[pos:c])
+                    pos = c
+                    trans += 1
+            except Exception as e:  # noqa: BLE001
+                out.append(("answer-to-an-abandoned-request-breaks-what-follows:raises", {"cuts": list(cs), "abandoned": sorted(gone), "error": f"{type(e).__name__}: {e}"[:160]}))
+                break
+            if log != want:
+                out.append(("answer-to-an-abandoned-request-breaks-what-follows:delivered-differs", {"cuts": list(cs), "abandoned": sorted(gone), "got": [(x[0], x[1], x[2]) for x in log], "want": [(x[0], x[1], x[2]) for x in want]}))
+                break
+    finally:
+        loop.shutdown()
+    p["_stats"] = (0, trans, len(stream))
+    return out
+
+
 def case_reads(p):
     """Large messages (the size of an /accessories document) under coarse segmentations: fixed read sizes, one read per message, whole stream."""
     seq = p["seq"]
@@ -388,7 +447,7 @@ def case_cuts_send(p):
     return out
 
 
-CASES = {"graph": case_graph, "cuts": case_cuts, "secure": case_secure, "cuts_send": case_cuts_send, "reads": case_reads}
+CASES = {"abandoned": case_abandoned, "graph": case_graph, "cuts": case_cuts, "secure": case_secure, "cuts_send": case_cuts_send, "reads": case_reads}
 
 
 def _work(item, seed, tier):
@@ -420,6 +479,10 @@ def run(ctx):
     bigc = dict(kind="HTTP/1.1", code=200, reason="OK", headers=[], framing="chunked", body=b"0\r\n\r\n" * 120, chunks=[255, 256, 1, 17])
     ev = dict(kind="EVENT/1.0", code=200, reason="OK", headers=[("Content-Type", "application/hap+json")], framing="cl", body=b'{"characteristics":[]}')
     work.append(("cuts", {"seq": [big, ev, bigc]}))
+    r_ = lambda b_: dict(kind="HTTP/1.1", code=200, reason="OK", headers=[("Content-Type", "application/hap+json")], framing="cl", body=b_)  # noqa: E731
+    for gone in ([0], [1], [0, 1], [2]):
+        work.append(("abandoned", {"seq": [r_(b"first"), r_(b"second"), ev, r_(b"third")], "abandoned": gone}))
+        work.append(("abandoned", {"seq": [r_(b"first"), dict(r_(b"second!"), framing="chunked", chunks=[3]), r_(b"third"), ev], "abandoned": gone}))
     small = dict(kind="HTTP/1.1", code=200, reason="OK", headers=[("Content-Type", "application/hap+json")], framing="cl", body=b'{"characteristics":[{"aid":1,"iid":9,"value":true}]}')
     smallc = dict(kind="HTTP/1.1", code=200, reason="OK", headers=[], framing="chunked", body=b"ab\r\n0\r\n\r\ncd", chunks=[2, 3])
     nobody = dict(kind="HTTP/1.1", code=204, reason="No Content", headers=[], framing="none")
